@@ -165,13 +165,16 @@ func facts(path, low, up string) (map[string]fnFact, []string, error) {
 					t = s.X
 				}
 				if id, ok := t.(*ast.Ident); ok {
-					name = id.Name + "." + name
+					// only the receiver TYPE carries the type prefix; method names are kept verbatim
+					name = norm(id.Name, low, up) + "." + name
 				}
+			} else {
+				name = norm(name, low, up)
 			}
 			var sb strings.Builder
 			var locks []string
 			skel(x.Body, low, up, &sb, &locks)
-			out[norm(name, low, up)] = fnFact{sb.String(), locks}
+			out[name] = fnFact{sb.String(), locks}
 		}
 	}
 	return out, vars, nil
@@ -257,6 +260,7 @@ func main() {
 		expectedPath = os.Args[2]
 	}
 	var probs []problem
+	var info []string
 	add := func(props []string, f string, a ...interface{}) {
 		probs = append(probs, problem{props, fmt.Sprintf(f, a...)})
 	}
@@ -350,12 +354,12 @@ func main() {
 			if json.Unmarshal(raw, &exp) == nil {
 				for n, l := range exp {
 					if strings.Join(cur[n], ",") != strings.Join(l, ",") {
-						add([]string{"C07", "C09", "C10", "C06"}, "lock skeleton of %s changed: now %v, the model was written against %v", n, cur[n], l)
+						info = append(info, fmt.Sprintf("lock skeleton of %s changed: now %v, the model was written against %v", n, cur[n], l))
 					}
 				}
 				for n, l := range cur {
 					if _, ok := exp[n]; !ok && len(l) > 0 {
-						add([]string{"C07", "C09", "C10", "C06"}, "function %s takes locks but is unknown to the model's expectation: %v", n, l)
+						info = append(info, fmt.Sprintf("function %s takes locks but is unknown to the model's expectation: %v", n, l))
 					}
 				}
 			}
@@ -364,6 +368,7 @@ func main() {
 			os.WriteFile(expectedPath, raw, 0644)
 		}
 	}
+	summary["info"] = info
 	out, _ := json.Marshal(map[string]interface{}{"problems": probs, "summary": summary, "locks": cur})
 	fmt.Println(string(out))
 }
